@@ -6,10 +6,12 @@ import kit
 
 def split_commands(ctx):
     """C03: MGET / MSET / DEL / UNLINK / EXISTS / TOUCH = per-key commands combined in argument order (ClusterSplit.tla)."""
-    ctx.mc("redis", "ClusterSplit", "MC_ClusterSplit_thorough.cfg" if ctx.thorough else "MC_ClusterSplit.cfg", workers=8, timeout=1500)
+    ctx.mc("redis", "ClusterSplit", "MC_ClusterSplit_thorough.cfg" if ctx.thorough else "MC_ClusterSplit.cfg", workers=(8 if ctx.thorough else 4), timeout=1500)
     # anti-vacuity: the two ways to get the combination wrong must be caught by the module's invariants
     ctx.mc("redis", "ClusterSplit", "MC_ClusterSplit_dedup.cfg", workers=4, timeout=600,
            expect_violated=["EqualsReference", "StoreIsReference"], count=False)
+    ctx.mc("redis", "ClusterSplit", "MC_ClusterSplit_fold.cfg", workers=2, timeout=600,
+           expect_violated=["EqualsReference"], count=False)
     if ctx.thorough:
         ctx.mc("redis", "ClusterSplit", "MC_ClusterSplit_arrival.cfg", workers=4, timeout=600,
                expect_violated=["EqualsReference"], count=False)
@@ -26,7 +28,7 @@ def split_commands(ctx):
     rfile = os.path.join(ctx.work, "split-results.ndjson")
     kit.write_ndjson(vfile, vecs)
     kit.write_ndjson(bfile, behs)
-    ctx.harness(["cluster-split", "-vec", vfile, "-in", bfile, "-out", rfile], timeout=1500, name="cluster")
+    ctx.harness(["cluster-split", "-vec", vfile, "-in", bfile, "-out", rfile, "-wide", "40" if ctx.thorough else "10"], timeout=1500, name="cluster")
     results = kit.read_ndjson(rfile)
     strata = set()
     good = 0
@@ -36,7 +38,7 @@ def split_commands(ctx):
             continue
         good += 1
         strata.update(res.get("strata") or [])
-        src = vecs[res["id"] - 1] if res["kind"] == "vector" else behs[res["id"] - 1]
+        src = vecs[res["id"] - 1] if res["kind"] == "vector" else behs[res["id"] - 1] if res["kind"] == "program" else {"wide": res["id"]}
         ctx.case(key=["split", res["kind"], src], nontrivial=True, n=res["cmds"])
         for b in res.get("bad") or []:
             if b["why"].startswith("child delivered"):
@@ -57,7 +59,7 @@ def split_commands(ctx):
     # mandatory strata: every class, with and without a repeated key, under every concrete command name
     need = {"%s/%s/%s" % (c, sh, n) for c, names in (("mcount", ("exists", "touch")), ("mdel", ("del", "unlink")),
                                                        ("mread", ("mget",)), ("mwrite", ("mset",)))
-            for sh in ("repeated-key", "distinct-keys") for n in names}
+            for sh in ("repeated-key", "distinct-keys", "wide") for n in names}
     missing = sorted(need - strata)
     if missing and not ctx.violations:
         raise kit.Inconclusive("multi-key strata not exercised: %s" % missing)
@@ -136,6 +138,42 @@ def redirect_order(ctx):
     ctx.cov["redirect_to_fresh_node"] = reached
 
 
+def redirect_chain(ctx):
+    """C04: windows W_Chain2 / W_Chain3 on the real code (one request needs two or three redirections)."""
+    rfile = os.path.join(ctx.work, "redirchain.ndjson")
+    ctx.harness(["cluster-redirchain", "-out", rfile, "-runs", "4" if ctx.thorough else "1"], timeout=900, name="cluster")
+    reached = {}
+    for r in kit.read_ndjson(rfile):
+        kind = r.get("kind", "?")
+        if r.get("err"):
+            ctx.notes.append("redirchain %s/%s: %s" % (kind, r.get("op"), r["err"]))
+            continue
+        ctx.case(key=["redirchain", kind, r["op"]], nontrivial=True)
+        what = "%s of a key that needs the redirections %s: the client received %s, a single server replies %s (%d redirections answered, executed %d times)" % (
+            r["op"], kind, r["got"], r["expected"], r["chain"], r["executed"])
+        bad = False
+        if r["leaked"]:
+            bad = True
+            ctx.violation("redirect-error/chain-" + kind, what, r)
+        elif r["differs"]:
+            bad = True
+            ctx.violation("reply-differs/chain-" + kind, what, r)
+        if r["executed"] != 1 and not r["leaked"]:
+            bad = True
+            ctx.violation("effect-not-once/chain-" + kind, what, r)
+        if r.get("final") and not r["leaked"]:
+            bad = True
+            ctx.violation("data-differs/chain-" + kind, what + "; " + r["final"], r)
+        if r["chain"] >= r["wantChain"]:
+            reached[kind] = reached.get(kind, 0) + 1
+            if not bad:
+                ctx.cov["traces_validated_against_impl"] += 1
+    missing = [k for k in ("moved-ask", "moved-moved", "ask-moved", "moved-ask-moved") if reached.get(k, 0) < 2]
+    if missing and not ctx.violations:
+        raise kit.Inconclusive("redirect chains not reached (read and write) for: %s" % missing)
+    ctx.cov["redirect_chains"] = reached
+
+
 def gen_and_replay(ctx, gencfg, num, stable, label, extra=()):
     g = ctx.tlc("redis", "ClusterGen", gencfg, mode="sim", workers=1, sim_num=num, sim_depth=600,
                 seed=ctx.seed, deadlock=False, timeout=600)
@@ -158,11 +196,14 @@ def gen_and_replay(ctx, gencfg, num, stable, label, extra=()):
         good += 1
         mig = [s["a"] for s in beh if s["a"] in ("setmigrating", "migratekey", "finalise")]
         pipelined = label == "pipeline"
+        held = label in ("pipeline", "stale")   # the refresher is held back: convergence is not the subject
         ctx.case(key=[label] + [(s["a"], s["op"], s["k"], s["exp"], s.get("p", 0)) for s in beh], nontrivial=(len(mig) > 0) or stable, n=res["cmds"])
         art = {"behaviour": beh, "result": res}
         phase = "stable" if stable else ("+".join(sorted(set(mig))) or "no-migration")
         if pipelined:
             phase = "pipelined/" + phase
+        if label == "stale":
+            phase = "stale-table/" + phase
         for b in res.get("bad") or []:
             if "leaked" in b["why"]:
                 sig = "redirect-leak/" + phase
@@ -177,7 +218,7 @@ def gen_and_replay(ctx, gencfg, num, stable, label, extra=()):
             ctx.violation("effect-not-once/" + phase, c, art)
         if stable and res["redirects"] > 0:
             ctx.violation("redirection-on-stable-cluster", "%d redirections although the layout never changed" % res["redirects"], art)
-        if not stable and not pipelined and not res["migratingAtEnd"] and res["redirectsAfter"] > 0:
+        if not stable and not held and not res["migratingAtEnd"] and res["redirectsAfter"] > 0:
             ctx.violation("no-convergence/" + phase, "%d redirections in the last of up to 40 rounds after the layout settled" % res["redirectsAfter"], art)
         if not (res.get("bad") or res.get("copies") or res.get("execCounts")):
             ctx.cov["traces_validated_against_impl"] += 1
@@ -186,6 +227,7 @@ def gen_and_replay(ctx, gencfg, num, stable, label, extra=()):
     ctx.cov.setdefault("replay", {})[label] = {"behaviours": len(behs), "replayed": good,
                                                "commands": sum(r.get("cmds", 0) for r in results),
                                                "redirections": sum(r.get("redirects", 0) for r in results),
+                                               "behaviours_with_a_chain_of_2_redirections": sum(1 for r in results if r.get("maxChain", 0) >= 2),
                                                "bursts": sum(r.get("bursts", 0) for r in results),
                                                "bursts_redirected_to_fresh_node": sum(r.get("freshRedirects", 0) for r in results)}
     if results:
